@@ -9,8 +9,8 @@ from vlib import apigen, pipeline, rdm, refs
 
 ID = "C16"
 LEVEL = "exploration"
-RULE = ("cases = subsets of the 9 RPCs of a two-service API whose type graph has sharing, nesting (a nested type referenced without its "
-        "parent), recursion, enum-only and LRO-only files and resource references (thorough: all 511 non-empty subsets x {omit, "
+RULE = ("cases = subsets of the 10 RPCs of a three-service API (one service name a prefix of another, sharing an RPC name) whose type graph has sharing, nesting (a nested type referenced without its "
+        "parent), recursion, enum-only and LRO-only files and resource references (thorough: all subsets of size 1, 2, n-1, n and 420 seeded others x {omit, "
         "keep-as-internal}; quick: a seeded sample) plus settings naming unknown / other-version methods; the imported selective "
         "library's client methods and classes are compared with two closures computed on the input descriptors (need: must be present "
         "and usable; may: upper bound), every kept RPC is called against the loopback server and its path/payload/header judged, and "
@@ -33,20 +33,26 @@ def all_rpcs(req):
 
 def plan(seed, tier):
     rng = random.Random(seed)
-    names = ["GetShelf", "GetBook", "ListBooks", "TagInner", "ImportBooks", "Ping", "Grow", "PurgeBooks", "Annotate"]
+    names = ["Library.GetShelf", "Library.GetBook", "Library.ListBooks", "Library.TagInner", "Library.ImportBooks", "Registry.Ping",
+             "Registry.Grow", "Library.PurgeBooks", "Registry.Annotate", "LibraryAdmin.GetShelf"]
     subsets = [list(c) for r in range(1, len(names) + 1) for c in itertools.combinations(names, r)]
+    singles = [s for s in subsets if len(s) == 1]
+    others = [s for s in subsets if len(s) > 1]
+    rng.shuffle(others)
+    # the shared RPC name GetShelf kept for one of Library / LibraryAdmin only, in both directions
+    twins = [["LibraryAdmin.GetShelf", "Registry.Ping"], ["Library.GetShelf", "Registry.Ping"], ["LibraryAdmin.GetShelf", "Library.GetBook"]]
     if tier == "quick":
-        singles = [s for s in subsets if len(s) == 1]
-        others = [s for s in subsets if len(s) > 1]
-        rng.shuffle(others)
-        chosen = singles + others[:36]
-        internal = others[36:44] + singles[:2]
+        chosen = singles + others[:34] + twins[:1]
+        internal = others[34:40] + singles[:2] + twins
     else:
-        chosen, internal = subsets, subsets
+        small = [s for s in others if len(s) == 2 or len(s) >= len(names) - 1]
+        rest = [s for s in others if s not in small][:420]
+        chosen = singles + small + rest
+        internal = singles + small + rest[:300] + twins
     cases = [{"id": f"sel-{seed}-{i}", "seed": seed * 100003 + i, "subset": s, "internal": False} for i, s in enumerate(chosen)]
     cases += [{"id": f"sel-int-{seed}-{i}", "seed": seed * 100003 + 5000 + i, "subset": s, "internal": True} for i, s in enumerate(internal)]
     for i, b in enumerate(["unknown_method", "other_version", "unknown_service", "other_package"]):
-        cases.append({"id": f"sel-bad-{seed}-{i}", "seed": seed * 100003 + 9000 + i, "subset": ["GetShelf"], "internal": False, "bad": b})
+        cases.append({"id": f"sel-bad-{seed}-{i}", "seed": seed * 100003 + 9000 + i, "subset": ["Library.GetShelf"], "internal": False, "bad": b})
     return cases
 
 
@@ -140,7 +146,7 @@ def run_case(case):
     req0 = api.request(scratch)
     pkg = api.info["pkg"]
     rpcs = all_rpcs(req0)
-    byname = {fq.rsplit(".", 1)[1]: (fq, p, s, m) for fq, p, s, m in rpcs}
+    byname = {f"{s.name}.{m.name}": (fq, p, s, m) for fq, p, s, m in rpcs}
     listed = [byname[n][0] for n in case["subset"]]
     bad_kind = case.get("bad")
     if bad_kind == "unknown_method":
@@ -280,7 +286,7 @@ def run_case(case):
             bad("kept-rpc-path", {"rpc": c["rpc"], "seen": e["method"]})
         if model.parse(c["req_type"], rdm.unb64(e["requests"][0])) != model.parse(c["req_type"], rdm.unb64(c["request"])):
             bad("kept-rpc-payload", {"rpc": c["rpc"]})
-    return {"verdict": "violated" if viol else "held", "violations": viol[:20],
+    return {"verdict": "violated" if viol else "held", "violations": pipeline.diverse(viol, 40),
             "evaluations": counters.get("types_required_usable", 0) + counters.get("types_absent_confirmed", 0) + counters.get("kept_rpc_calls", 0),
             "nontrivial_sigs": [] if viol else [f"{'+'.join(case['subset'])}|internal={case['internal']}"], "counters": counters,
             "sample": {"kept": case["subset"], "internal": case["internal"], "need": len(need), "may_extra": len(may - need),
